@@ -1,10 +1,10 @@
 package props
 
 import (
-	"sync/atomic"
 	"context"
 	"github.com/skx/evalfilter/v2/lexer"
 	"github.com/skx/evalfilter/v2/token"
+	"sync/atomic"
 	"time"
 
 	"bytes"
@@ -130,7 +130,7 @@ type Case struct {
 	HostVals map[string]lang.Value `json:"hostvals,omitempty"`
 	// UseRun: call Run instead of Execute and compare with the truth of Exp.Val.
 	UseRun bool   `json:"use_run,omitempty"`
-	TZ     string `json:"tz,omitempty"` // value of the TZ variable during the run ("-" = unset)
+	TZ     string `json:"tz,omitempty"`      // value of the TZ variable during the run ("-" = unset)
 	HostTZ string `json:"host_tz,omitempty"` // TZ when the process started: the zone the host's time library falls back to
 	// Hazard: the expression contains a range whose size the model could not
 	// bound once it left the specified part; such a case is not executed.
@@ -155,7 +155,7 @@ type Case struct {
 	// changed in place, as a host re-using one record does.
 	LaterFields [][]eng.Field `json:"later_fields,omitempty"`
 	SameAddress bool          `json:"same_address,omitempty"`
-	Msg          string   `json:"message,omitempty"`
+	Msg         string        `json:"message,omitempty"`
 }
 
 func (c *Case) fix() {
@@ -708,7 +708,7 @@ func playHistory(r *eng.Runner, history, script string, obj interface{}) {
 	case "twice":
 		quiet(obj)
 	case "pattern-flood":
-		quiet(obj) // the patterns of the script are known to the process ...
+		quiet(obj)        // the patterns of the script are known to the process ...
 		patternFlood(300) // ... then come hundreds of others
 	case "nil-first":
 		quiet(nil)
